@@ -37,7 +37,8 @@ class RmsNormFusion(pattern.RewriteRuleClassBase):
 
     def pattern(self, op, x, scale, epsilon, compute_dtype, target_dtype):
         x = pattern.OrValue([op.Cast(x, to=compute_dtype), x])
-        x_square = op.Pow(x, 2.0)
+        # An integer literal is matched exactly: Pow(x, 2.00001) (NaN for negative x) is not x**2.
+        x_square = op.Pow(x, 2)
         mean_square = op.ReduceMean(x_square, [-1], keepdims=1, noop_with_empty_axes=0)
         mean_square_plus_epsilon = op.Add(mean_square, epsilon)
         rms = op.Sqrt(mean_square_plus_epsilon)
